@@ -13,7 +13,6 @@ import (
 	"go/constant"
 	"go/token"
 	"go/types"
-	"os"
 	"regexp"
 	"sort"
 	"strconv"
@@ -318,6 +317,14 @@ func (x *c50cx) term(e ast.Expr) string {
 			if c50isStringy(tv.Type) && c50isStringy(x.info.TypeOf(v.Args[0])) {
 				return x.term(v.Args[0])
 			}
+			// a conversion between types with the same basic underlying type (e.g. a named bool) keeps the value
+			if at := x.info.TypeOf(v.Args[0]); at != nil {
+				if a, ok := at.Underlying().(*types.Basic); ok {
+					if b, ok := tv.Type.Underlying().(*types.Basic); ok && a.Kind() == b.Kind() {
+						return x.term(v.Args[0])
+					}
+				}
+			}
 			return types.TypeString(tv.Type, func(p *types.Package) string { return p.Name() }) + "(" + x.term(v.Args[0]) + ")"
 		}
 		var as []string
@@ -425,6 +432,12 @@ func (x *c50cx) lits(e ast.Expr, pol bool) []c50Atom {
 			r := x.lits(d, pol)
 			x.depth--
 			return r
+		}
+	case *ast.CallExpr:
+		if tv, ok := x.info.Types[v.Fun]; ok && tv.IsType() && len(v.Args) == 1 {
+			if a, ok := x.info.TypeOf(v.Args[0]).Underlying().(*types.Basic); ok && a.Info()&types.IsBoolean != 0 {
+				return x.lits(v.Args[0], pol) // bool(x)
+			}
 		}
 	}
 	if v := x.constOf(e); v != nil && v.Kind() == constant.Bool {
@@ -1102,22 +1115,9 @@ func (m *c50o) ruleO1O4() {
 		}
 		ra, rb := render(a), render(b)
 		// an option that the reader ignores altogether (named exception of C50-D3) cannot be plumbed differently in an observable way
-		ignored := 0
-		carried := 0
-		for k, o := range m.carriers {
-			if o == opt {
-				carried++
-				if _, ok := c50Exceptions[k]; ok {
-					ignored++
-				}
-			}
-		}
-		if carried > 0 && ignored == carried && !c.fixtureMode {
-			c.Exc("C50-O1", opt, pos, "the LOAD DATA reader ignores this option ("+c50Exceptions[c50firstKey(m.carriers, opt)]+"): the two override predicates (today: ["+ra+"] / ["+rb+"]) cannot disagree observably")
+		if why := m.readerIgnores(opt); why != "" {
+			c.Exc("C50-O1", opt, pos, "the LOAD DATA reader ignores this option ("+why+"): the two override predicates (today: ["+ra+"] / ["+rb+"]) cannot disagree observably")
 			continue
-		}
-		if os.Getenv("C50DEBUG") != "" {
-			fmt.Printf("O1 %s\n   into: %s\n   load: %s\n", opt, ra, rb)
 		}
 		c.Check(ra == rb, "C50-O1", opt, pos, ra,
 			fmt.Sprintf("option %s: %s overrides it as [%s] but %s as [%s]: the same FIELDS/LINES clause leaves the writer and the reader with different values (default %s)",
@@ -1883,20 +1883,6 @@ func (m *c50o) ruleO5(w *c50execFn, readers []*c50execFn) {
 	}
 }
 
-func c50firstKey(m map[string]string, v string) string {
-	var ks []string
-	for k, o := range m {
-		if o == v {
-			ks = append(ks, k)
-		}
-	}
-	sort.Strings(ks)
-	if len(ks) == 0 {
-		return ""
-	}
-	return ks[0]
-}
-
 var c50rePath = regexp.MustCompile(`\$(?:\.[A-Za-z_0-9]+)+`)
 
 // ruleD2: per option, the statement field paths that the override (value and guards) draws on are the same for both nodes.
@@ -1953,6 +1939,10 @@ func (m *c50o) ruleD2() {
 		if !pos.IsValid() {
 			pos = first[m.nm.loadType+"."+f]
 		}
+		if why := m.readerIgnores(f); why != "" {
+			c.Exc("C50-D2", f, pos, "the LOAD DATA reader ignores this option ("+why+"): override sources (today: "+a+" / "+b+") cannot disagree observably")
+			continue
+		}
 		c.Check(a == b, "C50-D2", f, pos, a,
 			fmt.Sprintf("option %s is overridden from %s for %s but from %s for %s: the same FIELDS/LINES clause configures the writer and the reader differently", f, a, m.nm.intoType, b, m.nm.loadType))
 	}
@@ -1973,4 +1963,27 @@ func (m *c50o) creationGuards(ov c50Override) map[string]bool {
 		}
 	}
 	return drop
+}
+
+// readerIgnores: every iterator field carrying the option is a named exception of C50-D3 (stored, never read).
+func (m *c50o) readerIgnores(opt string) string {
+	if m.c.fixtureMode {
+		return ""
+	}
+	carried, why := 0, ""
+	for k, o := range m.carriers {
+		if o != opt {
+			continue
+		}
+		carried++
+		r, ok := c50Exceptions[k]
+		if !ok {
+			return ""
+		}
+		why = r
+	}
+	if carried == 0 {
+		return ""
+	}
+	return why
 }
